@@ -30,7 +30,7 @@ def make_probes(bib):
             t = entry["title"] if "title" in entry else ""
             layers = len(t) - len(t.lstrip("{")) if isinstance(t, str) else -1
             entry.parser_metadata.setdefault("verif_log", []).append([self.name, layers])
-            return entry
+            return None if self.name == "DR" else entry
 
     class LibProbe(mw.LibraryMiddleware):
         def __init__(self, name):
@@ -52,7 +52,7 @@ def build(bib, names, BlockProbe, LibProbe, ct):
     mw = bib.middlewares
     out = []
     for n in names:
-        if n in ("P1", "P2", "P3"):
+        if n in ("P1", "P2", "P3", "DR"):
             out.append(BlockProbe(n))
         elif n == "L1":
             out.append(LibProbe(n))
@@ -66,6 +66,16 @@ def build(bib, names, BlockProbe, LibProbe, ct):
         else:
             raise core.MachineryError(n)
     return {"list": list, "tuple": tuple, "iter": iter}[ct](out)
+
+
+def observe_lib(lib, i=0):
+    return observe_entry(lib.entries[i]) if len(lib.entries) > i else {"live": False}
+
+
+def want_entry(w):
+    if not w["live"]:
+        return {"live": False}
+    return {"layers": w["layers"], "log": [list(x) for x in w["log"]], "mint": w["mint"]}
 
 
 def observe_entry(e):
@@ -84,7 +94,7 @@ def run_cfg(bib, c, BlockProbe, LibProbe):
             return {"err": True}
         except Exception as ex:  # noqa
             return {"err": "other", "exc": f"{type(ex).__name__}: {ex}"}
-        out = {"err": False, "e": observe_entry(lib.entries[0])}
+        out = {"err": False, "e": observe_lib(lib)}
         # the same call with library=<a library holding an earlier, untransformed entry>
         try:
             lib0 = bib.Library([M.Entry("article", "pre", [M.Field("title", "{{x}}"), M.Field("month", "3")])])
@@ -92,6 +102,7 @@ def run_cfg(bib, c, BlockProbe, LibProbe):
                                    append_middleware=build(bib, c["app"], BlockProbe, LibProbe, c["ct"]))
             keys = [e.key for e in lib.entries]
             out["into"] = {"keys": keys, "pre": observe_entry(lib.entries[0]), "e": observe_entry(lib.entries[1])} if keys == ["pre", "k"] else {"keys": keys}
+            out["into"]["blocks"] = len(lib.blocks)
         except Exception as ex:  # noqa
             out["into"] = {"exc": f"{type(ex).__name__}: {ex}"}
         return out
@@ -124,10 +135,15 @@ def run_cfg(bib, c, BlockProbe, LibProbe):
         def __init__(self):
             super().__init__(allow_inplace_modification=True)
 
-    meth = {"entry": "transform_entry", "string": "transform_string", "preamble": "transform_preamble",
-            "ecomment": "transform_explicit_comment", "icomment": "transform_implicit_comment"}[c["typ"]]
     sp = Splicer()
-    setattr(sp, meth, lambda b, lib=None, *a, **k: result(c["kind"], b))
+    if c.get("level", "method") == "method":
+        meth = {"entry": "transform_entry", "string": "transform_string", "preamble": "transform_preamble",
+                "ecomment": "transform_explicit_comment", "icomment": "transform_implicit_comment"}[c["typ"]]
+        setattr(sp, meth, lambda b, lib=None, *a, **k: result(c["kind"], b))
+    else:
+        cls = {"entry": M.Entry, "string": M.String, "preamble": M.Preamble, "ecomment": M.ExplicitComment,
+               "icomment": M.ImplicitComment, "failed": M.ParsingFailedBlock}[c["typ"]]
+        sp.transform_block = lambda b, lib=None, *a, **k: result(c["kind"], b) if isinstance(b, cls) else b
     order = ["c0", "e1", "s1", "p1", "f1", "c1", "e2"]
     lib = bib.Library([blocks[n] for n in order])
     for n in order:
@@ -148,11 +164,16 @@ def files(chk, bib):
     docs = {"utf-8": "@article{k, title = {é ü ß}, month = 3}\n% ｆｕｌｌ\n", "latin-1": "@article{k, title = {é ü ß}}\ntext ñ\n",
             "gbk": "@article{k, title = {汉字 测试}}\n", "utf-16": "@book{b, title = {é 汉 x}, month = 3}\n"}
     n = 0
+    # further files: a leading U+FEFF is content for every encoding but "utf-8-sig"/"utf-16"; CRLF; every high latin-1 byte
+    more = [("utf-8", "\ufeff" + docs["utf-8"]), ("UTF-8", "\ufeff@article{k, title = {x}}\n"), ("utf8", "\ufeff% c\n@article{k, title = {x}}\n"),
+            ("utf-8-sig", docs["utf-8"]), ("utf-16-le", "\ufeff" + docs["utf-16"]), ("utf-8", docs["utf-8"].replace("\n", "\r\n")),
+            ("latin-1", "@article{k, title = {" + "".join(chr(c) for c in range(0xa0, 0x100)) + "}}\n"), ("ascii", "@article{k, title = {x}}\n"),
+            ("utf-8", ""), ("utf-8", "\ufeff")]
     try:
-        for enc, text in docs.items():
-            path = os.path.join(d, "in." + enc)
-            with open(path, "w", encoding=enc) as fh:
-                fh.write(text)
+        for fi, (enc, text) in enumerate(list(docs.items()) + more):
+            path = os.path.join(d, f"in{fi}." + enc)
+            with open(path, "wb") as fh:
+                fh.write(text.encode(enc))
             with open(path, encoding=enc) as fh:
                 decoded = fh.read()
             for variant in ("default", "stack", "append"):
@@ -172,7 +193,7 @@ def files(chk, bib):
                     ok, obs, pb = False, f"{type(ex).__name__}: {ex}", "parse_string of the decoded content"
                 if not ok:
                     chk.mismatch("parse_file", {"kind": "file", "encoding": enc, "text": text, "variant": variant}, obs, str(pb)[:300], kind="file")
-            if enc != "utf-8":
+            if enc.lower() not in ("utf-8", "utf8"):
                 continue
             # default encoding of parse_file is UTF-8
             n += 1
@@ -244,12 +265,12 @@ def run(chk: core.Check):
         clause = "both_arguments_raise" if c["side"] != "splice" else "splice_type_error"
         if ok and not want["err"]:
             if c["side"] == "parse":
-                w = {"layers": want["e"]["layers"], "log": [list(x) for x in want["e"]["log"]], "mint": want["e"]["mint"]}
+                w = want_entry(want["e"])
                 ok, clause = got["e"] == w, "parse_stack_order"
-                wp = {"layers": want["pre"]["layers"], "log": [list(x) for x in want["pre"]["log"]], "mint": want["pre"]["mint"]}
+                wp = want_entry(want["pre"])
                 want = w
                 if ok:
-                    winto = {"keys": ["pre", "k"], "pre": wp, "e": w}
+                    winto = {"keys": ["pre", "k"], "pre": wp, "e": w, "blocks": 2} if w.get("live", True) else {"keys": [], "blocks": 0}
                     if got["into"] != winto:
                         ok, clause, want = False, "parse_into_library", {"e": w, "into": winto}
             elif c["side"] == "write":
